@@ -44,6 +44,12 @@ func toJval(v interface{}) jval {
 		return jval{T: "bool", V: strconv.FormatBool(x)}
 	case int:
 		return jval{T: "int", V: strconv.Itoa(x)}
+	case int32:
+		return jval{T: "i32", V: strconv.FormatInt(int64(x), 10)}
+	case int64:
+		return jval{T: "i64", V: strconv.FormatInt(x, 10)}
+	case float32:
+		return jval{T: "f32", V: strconv.FormatFloat(float64(x), 'g', -1, 32)}
 	case float64:
 		return jval{T: "flt", V: strconv.FormatFloat(x, 'g', -1, 64)}
 	case json.Number:
@@ -80,6 +86,15 @@ func fromJval(j jval) (interface{}, error) {
 	case "int":
 		i, err := strconv.Atoi(j.V)
 		return i, err
+	case "i32":
+		i, err := strconv.ParseInt(j.V, 10, 32)
+		return int32(i), err
+	case "i64":
+		i, err := strconv.ParseInt(j.V, 10, 64)
+		return i, err
+	case "f32":
+		f, err := strconv.ParseFloat(j.V, 32)
+		return float32(f), err
 	case "flt":
 		f, err := strconv.ParseFloat(j.V, 64)
 		return f, err
@@ -121,6 +136,10 @@ var c03Specials = []string{"<&>\"'", "a&amp;b", "]]>", "a<b", "x & y", "'q'", "s
 var c03Ints = []int{0, 1, -7, 42, 1234567890123, 12}
 var c03Floats = []float64{2.5, -0.75, 1e21, 3, 1e-7, 123456789.125, 0, -12}
 var c03JNums = []json.Number{"12", "1.50"}
+
+// the sized numeric types only hand-built maps carry (the encoders list them beside int and float64)
+var c03Sized = []interface{}{int32(-7), int32(2147483647), int64(1) << 40, int64(-9007199254740993), int64(12),
+	float32(0.1), float32(2.5), float32(0.7), float32(3.14159), float32(1e-3), float32(16777216), float32(-0.35)}
 var c03RootTags = []string{"root", "doc", "r-1", "Top", "a"}
 var c03ElemTags = []string{"element", "el", "item", "e_1"}
 var c03Indents = [][2]string{{"", "  "}, {"", "\t"}, {" ", " "}, {"", ""}} // (prefix, indent)
@@ -154,6 +173,8 @@ func (g *g3) scalarNN() interface{} {
 		return c03Floats[g.r.Intn(len(c03Floats))]
 	case x < 9:
 		return c03JNums[g.r.Intn(len(c03JNums))]
+	case x < 10:
+		return c03Sized[g.r.Intn(len(c03Sized))]
 	}
 	return g.str()
 }
@@ -383,7 +404,7 @@ func c03Dom(v interface{}, esc bool) bool {
 		switch x := v.(type) {
 		case string:
 			return esc || !c03HasSpecial(x)
-		case bool, int, float64, json.Number:
+		case bool, int, int32, int64, float32, float64, json.Number:
 			return true
 		}
 		return false
@@ -770,7 +791,7 @@ func (g *g3) injectBadAttr(v interface{}) bool {
 func runC03(cfg runCfg) error {
 	r := newRng(cfg.seed)
 	run := newRun("C03", cfg.out, cfg.seed, cfg.shards, xml2Header, "xcase2",
-		"random JSON-shaped values (nesting <= 4 containers below the root, fan-out <= 4: empty maps/lists, nil, int, float64, json.Number, "+
+		"random JSON-shaped values (nesting <= 4 containers below the root, fan-out <= 4: empty maps/lists, nil, int, float64, json.Number, occasionally int32/int64/float32, "+
 			"bool, strings with blanks/tabs/newlines/non-ASCII and - under XMLEscapeChars - the five XML specials; lists of scalars / maps / mixed / "+
 			"directly nested; attribute and text entries in every combination) x root shapes (multi-key, single-key non-list, empty, explicit tag, "+
 			"AnyXml of scalar/nil/list/map with default or explicit tags) x 4 indentations; plus ~8% out-of-domain stream (non-scalar attribute, "+
